@@ -13,7 +13,7 @@ namespace Mobius
 
 structure AccessBitmap where
   bytes : Vector UInt8 8
-deriving DecidableEq
+deriving DecidableEq, Repr
 
 namespace AccessBitmap
 
